@@ -22,4 +22,8 @@ theorem nonprefixable_slice_02_0 : nonprefixableSliceOk 2 0 = true := by decide 
 theorem nonprefixable_slice_02_1 : nonprefixableSliceOk 2 1 = true := by decide +kernel
 theorem nonprefixable_slice_02_2 : nonprefixableSliceOk 2 2 = true := by decide +kernel
 
+/-- the body of `generate_name_alternatives`' outer loop, for the table keys number i ≡ 2 (mod 16),
+    started in the state the real generator had there, appends exactly what the real one appended -/
+theorem gen_chunk_02 : genChunkOk 2 = true := by decide +kernel
+
 end Unyt.C14
